@@ -590,7 +590,7 @@ fn dense_value(thorough: bool, mut i: usize) -> (String, Val) {
     if i <= nl {
         let l = i;
         let a: String = "abcdefghijklmnopqrstuvwxyz".chars().cycle().take(l).collect();
-        let b: String = "漢字".chars().cycle().take(l / 2).collect::<String>() + if l % 2 == 1 { "z" } else { "" };
+        let b: String = (if l % 2 == 1 { "z" } else { "" }).to_string() + &"漢字".chars().cycle().take(l / 2).collect::<String>(); // lead bytes at odd offsets for odd l, even for even l
         let mut clip = none_clip;
         clip[0] = Some(a.clone());
         clip[256] = Some(b.clone());
